@@ -23,7 +23,7 @@ SYMPY_OP_TO_PDDL_OP = {
     One: "1",
 }
 
-DEFAULT_DECIMAL_DIGITS = os.environ.get("NUMERIC_PRECISION", 4)
+DEFAULT_DECIMAL_DIGITS = int(os.environ.get("NUMERIC_PRECISION", 4))
 FLOAT_NOISE_THRESHOLD = 1e-9
 
 
